@@ -2,6 +2,7 @@
 import random
 
 from .. import abstraction as ab
+from .. import universe as U
 from . import base, gen, cfgsrc
 from ..worker import guarded
 
@@ -104,6 +105,10 @@ def drive(task):
         rng = random.Random(task["seed"])
         for i in range(task["count"]):
             src = cfgsrc.random_src(rng, many_vars=rng.random() < 0.25)
+            if i % 6 == 1:
+                src = cfgsrc.eps_as_terminal(src)                 # the glyph ε is an ordinary terminal here
+            elif i % 6 == 4:
+                src["vnames"] = rng.randrange(len(U.VAR_NAME_POOLS))      # multi-character variable names
             yield from events(src, task["n"])
             alt = with_other_start(src) if i % 3 == 0 else None
             if alt:
